@@ -74,33 +74,49 @@ example :
 
 /-! ### Alternating dual updates -/
 
-/-- One outer iteration of `adupdates` (shared temporaries `tmp_rans`, any callback mode) and of
-`adupdates_simple` from states that agree on `x` and the duals end in states that agree. -/
+/-- One outer iteration of `adupdates` and of `adupdates_simple` from states that agree on `x`
+and the duals end in states that agree — PROVIDED the proximal that `adupdates` hoists out of the
+loop (`proxs[j]`) is the one `adupdates_simple` rebuilds in every inner iteration (`hprox`).  The
+optimised body writes the proximal result into the shared buffer `tmp_rans[ran]` and computes `x`
+and `duals[j]` from what it READS there; the proof uses that the read follows the write of the
+same slot (`upd … (rid j) … (rid j)`), for every assignment `rid` of operators to buffers. -/
 theorem C11.adupdates_step_refines {K V W : Type} [Field K] [AddCommGroup V] [Module K V]
-    [AddCommGroup W] [Module K W] (P : AduP K V W) (so : AduOpt V W) (ss : AduSimple V W)
-    (h : so.x = ss.x ∧ so.duals = ss.duals) :
+    [AddCommGroup W] [Module K W] (P : AduP K V W) (hprox : ∀ j w, P.prox j w = P.proxSimple j w)
+    (so : AduOpt V W) (ss : AduSimple V W) (h : so.x = ss.x ∧ so.duals = ss.duals) :
     (P.stepOpt so).x = (P.stepSimple ss).x ∧ (P.stepOpt so).duals = (P.stepSimple ss).duals := by
   have hin : ∀ j (a : AduOpt V W) (b : AduSimple V W), (a.x = b.x ∧ a.duals = b.duals) →
       ((P.innerOpt j a).x = (P.innerSimple j b).x ∧
        (P.innerOpt j a).duals = (P.innerSimple j b).duals) := by
     intro j a b ⟨h1, h2⟩
-    simp only [AduP.innerOpt, AduP.innerSimple, h1, h2, and_self]
+    simp only [AduP.innerOpt, AduP.innerSimple, upd, if_true, h1, h2, hprox, and_self]
   have h2 := forRange_sim P.innerOpt P.innerSimple (fun a b => a.x = b.x ∧ a.duals = b.duals) hin P.m
     { so with x := P.primal so.duals so.x } { ss with x := P.primal ss.duals ss.x }
     (by simp only [h.1, h.2, and_self])
   unfold AduP.stepOpt AduP.stepSimple
   split <;> exact h2
 
-/-- `adupdates` = `adupdates_simple` (fixed order): for every number of operators, all operators /
-adjoints / proximals (arbitrary functions), all step sizes, every assignment `rid` of operators to
-shared temporaries, every initial content of those temporaries, scalar AND pointwise (array-valued)
-inner step sizes, every `n`: same `x`, same duals. -/
+/-- `adupdates` = `adupdates_simple` (fixed order) when the hoisted proximals agree with the
+per-iteration ones: for every number of operators, all operators / adjoints (arbitrary functions),
+all step sizes, every assignment `rid` of operators to shared buffers and every initial content of
+those buffers, scalar AND pointwise inner step sizes, every `n`: same `x`, same duals. -/
 theorem C11.adupdates_refines {K V W : Type} [Field K] [AddCommGroup V] [Module K V]
-    [AddCommGroup W] [Module K W] (P : AduP K V W) (x0 : V) (duals0 tmp0 : Nat → W) (n : Nat) :
+    [AddCommGroup W] [Module K W] (P : AduP K V W) (hprox : ∀ j w, P.prox j w = P.proxSimple j w)
+    (x0 : V) (duals0 tmp0 : Nat → W) (n : Nat) :
     (P.stepOpt^[n] ⟨x0, duals0, tmp0, []⟩).x = (P.stepSimple^[n] ⟨x0, duals0⟩).x ∧
     (P.stepOpt^[n] ⟨x0, duals0, tmp0, []⟩).duals = (P.stepSimple^[n] ⟨x0, duals0⟩).duals :=
   iterate_sim P.stepOpt P.stepSimple (fun a b => a.x = b.x ∧ a.duals = b.duals)
-    (fun so ss h => C11.adupdates_step_refines P so ss h) n _ _ ⟨rfl, rfl⟩
+    (fun so ss h => C11.adupdates_step_refines P hprox so ss h) n _ _ ⟨rfl, rfl⟩
+
+/-- The hypothesis is needed: with a hoisted proximal that differs from the per-iteration one
+(e.g. built from a different step, seed C11-1) the two solvers differ after ONE iteration. -/
+theorem C11.adupdates_refines_needs_prox :
+    let P : AduP ℚ ℚ ℚ := ⟨1, fun _ x => x, fun _ y => y, fun _ y => y / 2, fun _ y => y / 4, 1,
+      fun _ => .scalar 1, fun a b => a * b, fun _ => 0, false⟩
+    (P.stepOpt^[1] ⟨1, fun _ => 0, fun _ => -77, []⟩).x ≠ (P.stepSimple^[1] ⟨1, fun _ => 0⟩).x := by
+  simp only [Function.iterate_succ, Function.iterate_zero, Function.comp, AduP.stepOpt,
+    AduP.stepSimple, AduP.primal, AduP.innerOpt, AduP.innerSimple, AduP.scaled, forRange, List.range,
+    List.range.loop, List.foldl, upd, smul_eq_mul]
+  norm_num
 
 /-! ### Double-proximal DC -/
 /-- The loop bodies of `doubleprox_dc` (in-place `lincomb`s) and `doubleprox_dc_simple` are the same map. -/
@@ -274,7 +290,7 @@ theorem C11.osmlem_callback_count {V W : Type} (P : OsmlemP V W) (s : OsmlemS V 
 (`rid = 0`): the iterate moves and both versions agree. -/
 example :
     let P : AduP ℚ ℚ ℚ := ⟨2, fun i x => (i + 1 : ℚ) * x, fun i y => (i + 1 : ℚ) * y,
-      fun _ y => y / 2, 1, fun _ => .scalar (1 / 2), fun a b => a * b, fun _ => 0, false⟩
+      fun _ y => y / 2, fun _ y => y / 2, 1, fun _ => .scalar (1 / 2), fun a b => a * b, fun _ => 0, false⟩
     (P.stepOpt^[1] ⟨1, fun _ => 0, fun _ => -77, []⟩).x = (P.stepSimple^[1] ⟨1, fun _ => 0⟩).x ∧
     (P.stepSimple^[1] ⟨1, fun _ => 0⟩).x ≠ 1 := by
   simp only [Function.iterate_succ, Function.iterate_zero, Function.comp, AduP.stepOpt,
